@@ -87,6 +87,9 @@ Shapes == {Bin(o1, Bin(o2, A1, IntE(1)), Var("", <<"v">>)) : o1 \in BinOps, o2 \
           \cup {NegE(Bin(o, A1, IntE(1))) : o \in BinOps} \cup {Bin(o, NegE(A1), NegE(NegE(IntE(1)))) : o \in BinOps}
           \* -(x op y) op z : the negated group is the LEFT operand of a further operator of the same or another level
           \cup {Bin(o1, NegE(Bin(o2, IntE(1), Var("", <<"v">>))), IntE(1)) : o1 \in {"add", "sub", "mul", "div", "mod"}, o2 \in {"add", "sub", "mul", "div", "mod"}}
+          \* ... with operands whose values tell the readings apart: -(7 + 2) + 3 is -6, not 12; -(7 mod 2) mod 3 is -1, not 1
+          \cup {Bin(o1, NegE(Bin(o2, IntE(7), IntE(2))), IntE(3)) : o1 \in {"add", "sub", "mul", "div", "mod"}, o2 \in {"add", "sub", "mul", "div", "mod"}}
+          \cup {Bin(o1, Bin(o2, NegE(Bin(o2, IntE(7), IntE(2))), IntE(3)), NegE(Bin(o1, IntE(5), IntE(4)))) : o1 \in {"add", "sub", "mul", "div", "mod"}, o2 \in {"add", "sub", "mul", "div", "mod"}}
           \cup {Filter(Bin(o, A1, Var("", <<"v">>)), <<IntE(1)>>, <<>>) : o \in BinOps} \cup {Call(<<"c","o","n","c","a","t">>, <<x, Bin("or", x, x)>>) : x \in Atoms}
 RoundTrip == \A e \in Depth1 \cup Shapes : LET r == Parse(Unparse(e)) IN r.ok /\ r.e = e
 ASSUME RoundTrip
